@@ -27,5 +27,15 @@ let handle = function
       show_o (fun (((((w, t), cl), ttl), d), e) -> Printf.sprintf "%s %d %d %d %d %d" (hex_of_bytes w) (int_of_n t) (int_of_n cl) (int_of_n ttl) (int_of_n d) (int_of_n e)) (c19_record (bytes_of_hex c) (nat_n s))
   | ["edns"; b] ->
       show_o (fun (e, rest) -> Printf.sprintf "%d %d %d %d %s %d" (int_of_n e.e_udp) (int_of_n e.e_ext) (int_of_n e.e_ver) (int_of_n e.e_flags) (hex_of_bytes e.e_data) (List.length rest)) (c19_edns (bytes_of_hex b))
+  | ["mparse"; m] ->
+      let i = int_of_n in
+      let item = function
+        | MQ (w, t, c) -> Printf.sprintf "Q:%s:%d:%d" (hex_of_bytes w) (i t) (i c)
+        | MR (_, w, t, c, ttl, l) -> Printf.sprintf "R:%s:%d:%d:%d:%d" (hex_of_bytes w) (i t) (i c) (i ttl) (i l)
+        | ME e -> Printf.sprintf "E:%d:%d:%d:%d:%d" (i e.e_udp) (i e.e_ext) (i e.e_ver) (i e.e_flags) (List.length e.e_data) in
+      (match c19_mparse (bytes_of_hex m) with
+       | None -> "Short"
+       | Some r -> show_o (fun ((items, off), ok) ->
+           Printf.sprintf "%s %d %s fused" (if items = [] then "-" else String.concat "," (List.map item items)) (i off) (if ok then "complete" else "error")) r)
   | _ -> failwith "bad case line"
 let () = main handle
